@@ -33,6 +33,9 @@
      otherwise nl_cstr_substring: the part from start, at most length bytes -- start + length is computed in int64, a sum
      that wraps makes the result empty (finding c03:builtin:str_substring:start-plus-length-overflows-in-the-evaluator).
      No 1 MiB scan limit here (the native runtime has one).
+   * NOT modelled: the evaluator's memory management.  `set s s` on a string variable (also through cond) makes the real
+     evaluator free the value it then stores and glibc aborts nanoc (finding c03:string-self-assign-crash); the model
+     assigns the value like any other.  The C03/C06 streams do not generate the construct while the finding is open.
    * an unbound name evaluates to void (message on stderr).  In the real process symbols left behind by the type
      checker sit BELOW the globals with void values; they are the [base] parameter of the run functions.
 
